@@ -340,9 +340,15 @@ func livenessHealRealServer(w *World) {
 			}
 		}
 		logins := func() int { w.mu.Lock(); defer w.mu.Unlock(); return w.res.Probes["frps.login"] }
-		switch k := r.Intn(6); k {
+		switch k := r.Intn(7); k {
 		case 0: // reset every connection of the client
 			resetAll()
+		case 6: // half-open: the client's connections are cut so that only the client notices (state lost in a
+			// middlebox); the server still holds the old session when the client comes back with its run id
+			w.Probe("liveness.half_open")
+			for _, id := range w.Net.PairsMatching(func(l string, _ int) bool { return strings.HasPrefix(l, "frpc1>10.0.0.1:7000") }) {
+				w.Net.HalfOpenPair(id, 0)
+			}
 		case 5: // the client process is killed while it is registering its proxies on a new session, and started again
 			before := logins()
 			resetAll()
